@@ -1338,6 +1338,14 @@ def _shared_state_of(rel):
             if isinstance(n, ast.Call) and isinstance(n.func, ast.Attribute) and n.func.attr in _MUTATORS and shared(n.func.value) \
                     and not (isinstance(n.func.value, ast.Name) and n.func.value.id in ("os", "sys", "logging", "traceback")):
                 rows.append((qual, "mutate " + ast.unparse(n.func)))
+            # the models' queues are unbounded FIFOs (a `put` never blocks, order is arrival order): any queue built with
+            # arguments, or of another discipline, is a different object
+            if isinstance(n, ast.Call):
+                fnm = n.func.id if isinstance(n.func, ast.Name) else n.func.attr if isinstance(n.func, ast.Attribute) else None
+                if fnm in ("Queue", "SimpleQueue", "deque") and (n.args or n.keywords) and not (fnm == "deque" and not n.keywords and len(n.args) == 1):
+                    rows.append((qual, "queue-shape " + ast.unparse(n)[:60]))
+                elif fnm in ("LifoQueue", "PriorityQueue"):
+                    rows.append((qual, "queue-shape " + ast.unparse(n)[:60]))
             if isinstance(n, ast.Call) and isinstance(n.func, ast.Name) and n.func.id == "setattr" and n.args and shared(n.args[0]):
                 rows.append((qual, "setattr " + ast.unparse(n.args[0])))
         for ch in own:
